@@ -69,5 +69,16 @@ for mod in [251, 2, 65537]:
                           stubs=["math/big.Int with shared storage: struct copies share the limbs"],
                           functions=["mod.(*Int).%s" % hn, "mod.(*Int).%s" % mn], bound="modulus %d, all values; copy ; one mutating call on either side" % mod,
                           tiers=(["quick", "thorough"] if mod == 251 and mn in ("Add", "Zero", "Neg") else ["thorough"])))
+for q in [13, 251]:
+    for t, tn in enumerate(["projPoint", "extPoint"]):
+        for op, on in enumerate(["Add", "Sub", "Neg"]):
+            for pat, pn in enumerate(["distinct", "r=a", "r=b", "a=b", "r=a=b"]):
+                if on == "Neg" and pat in (2, 3, 4):
+                    continue
+                H.append(dict(name="vartime.%s.%s-q%d-%s" % (tn, on, q, pn), pkg="./group/edwards25519vartime", files=["harness/C05/vartime_alias.go"], entry="HarnessVartimeAlias", mode="int",
+                              params={"p0": q, "p1": t, "p2": op, "p3": pat}, big_shared=True, validate=2, timeout_ms=120000,
+                              stubs=["math/big.Int as mathematical integers with shared storage for struct copies"],
+                              functions=["edwards25519vartime.(*%s).%s" % (tn, on), "edwards25519vartime.(*%s).Clone" % tn], bound="prime field of %d elements, arbitrary curve parameters a, d, arbitrary coordinates and stale receiver, aliasing %s" % (q, pn),
+                              tiers=(["quick", "thorough"] if q == 13 else ["thorough"])))
 json.dump(dict(property="C05", harnesses=H), open(os.path.join(os.path.dirname(__file__), "..", "specs", "C05.json"), "w"), indent=1)
 print(len(H))
